@@ -401,18 +401,29 @@ func run(raw json.RawMessage) (common.Case, error) {
 		for _, l := range in.Labels {
 			zl = append(zl, labelpb.ZLabel{Name: l[0], Value: l[1]})
 		}
-		var obs []bool
-		var obsS []string
-		cnt := 0
+		var obs, obs2 []bool
+		var obsS, obsS2 []string
+		cnt, cnt2 := 0, 0
+		var kv []string
+		for _, l := range in.Labels {
+			kv = append(kv, l[0], l[1])
+		}
+		plbls := labels.FromStrings(kv...)
 		for i := int64(0); i < in.N; i++ {
 			info := &storepb.ShardInfo{TotalShards: in.N, ShardIndex: i, By: in.By, Labels: in.Set}
 			m := info.Matcher(&pool)
-			ok := m.MatchesZLabels(zl)
+			ok := m.MatchesZLabels(zl) // entry point of the proxy
 			m.Close()
-			obs = append(obs, ok)
-			obsS = append(obsS, common.Bool(ok))
+			m = info.Matcher(&pool)
+			ok2 := m.MatchesLabels(plbls) // entry point of the shard-aware stores
+			m.Close()
+			obs, obs2 = append(obs, ok), append(obs2, ok2)
+			obsS, obsS2 = append(obsS, common.Bool(ok)), append(obsS2, common.Bool(ok2))
 			if ok {
 				cnt++
+			}
+			if ok2 {
+				cnt2++
 			}
 		}
 		// oracle: the hash of the bytes the matcher is specified to hash (independent reconstruction)
@@ -432,13 +443,16 @@ func run(raw json.RawMessage) (common.Case, error) {
 		}
 		h := xxhash.Sum64(buf)
 		tbl := common.List([]string{common.Pair(common.Bytes(string(buf)), common.N(h))})
-		c.Coq = common.App("CShard", common.Bool(in.By), strs(in.Set), common.N(uint64(in.N)), coqLabels(in.Labels), tbl, common.List(obsS))
-		c.Obs = obs
+		c.Coq = common.App("CShard", common.Bool(in.By), strs(in.Set), common.N(uint64(in.N)), coqLabels(in.Labels), tbl, common.List(obsS), common.List(obsS2))
+		c.Obs = map[string]any{"MatchesZLabels": obs, "MatchesLabels": obs2}
 		c.Class = fmt.Sprintf("shard by=%v n=%d", in.By, in.N)
 		c.Nontrivial = in.N > 1 && len(in.Labels) > 0
-		if cnt != 1 {
-			c.GoPred = fmt.Sprintf("series matched by %d shards", cnt)
+		if cnt != 1 || cnt2 != 1 {
+			c.GoPred = fmt.Sprintf("series matched by %d shards through MatchesZLabels and %d through MatchesLabels", cnt, cnt2)
 			c.Sig = "not-exactly-one-shard"
+		} else if fmt.Sprint(obs) != fmt.Sprint(obs2) {
+			c.GoPred = fmt.Sprintf("MatchesZLabels %v and MatchesLabels %v put the series on different shards", obs, obs2)
+			c.Sig = "entry-points-disagree"
 		}
 		return c, nil
 	case "analyze":
